@@ -71,6 +71,7 @@ type Entry struct {
 	Type     string        `json:"type,omitempty"`
 	Packager string        `json:"packager,omitempty"`
 	FI       *FileInfoSpec `json:"file_info,omitempty"`
+	Expand   bool          `json:"expand,omitempty"`
 	Form     string        `json:"form,omitempty"` // generator's note: single|dir|dirslash|glob|tree|none
 }
 
@@ -112,6 +113,9 @@ type Meta struct {
 	Release         string   `json:"release,omitempty"`
 	Prerelease      string   `json:"prerelease,omitempty"`
 	VersionMetadata string   `json:"version_metadata,omitempty"`
+	EmbedPre        bool     `json:"embed_pre,omitempty"`  // the prerelease is written inside the version string, not as its own key
+	EmbedMeta       bool     `json:"embed_meta,omitempty"` // same for the build metadata
+	VPrefix         bool     `json:"v_prefix,omitempty"`   // the version string carries a leading 'v'
 	Section         string   `json:"section,omitempty"`
 	Priority        string   `json:"priority,omitempty"`
 	Maintainer      string   `json:"maintainer,omitempty"`
@@ -309,11 +313,23 @@ func (c *BuildCase) ConfigMapFor(root, f string) map[string]any {
 	put("arch", c.Meta.Arch)
 	put("platform", c.Meta.Platform)
 	put("epoch", c.Meta.Epoch)
-	put("version", c.Meta.Version)
+	vtext := c.Meta.Version
+	if c.Meta.VPrefix {
+		vtext = "v" + vtext
+	}
+	if c.Meta.EmbedPre && c.Meta.Prerelease != "" {
+		vtext += "-" + c.Meta.Prerelease
+	} else {
+		put("prerelease", c.Meta.Prerelease)
+	}
+	if c.Meta.EmbedMeta && c.Meta.VersionMetadata != "" {
+		vtext += "+" + c.Meta.VersionMetadata
+	} else {
+		put("version_metadata", c.Meta.VersionMetadata)
+	}
+	put("version", vtext)
 	put("version_schema", c.Meta.VersionSchema)
 	put("release", c.Meta.Release)
-	put("prerelease", c.Meta.Prerelease)
-	put("version_metadata", c.Meta.VersionMetadata)
 	put("section", c.Meta.Section)
 	put("priority", c.Meta.Priority)
 	put("maintainer", c.Meta.Maintainer)
@@ -357,6 +373,9 @@ func (c *BuildCase) ConfigMapFor(root, f string) map[string]any {
 		}
 		if e.Packager != "" {
 			em["packager"] = e.Packager
+		}
+		if e.Expand {
+			em["expand"] = true
 		}
 		if e.FI != nil {
 			fi := map[string]any{}
